@@ -98,7 +98,15 @@ def sortU (xs : List Uuid) : List Uuid := xs.foldl (fun acc x => insertSortedU x
 
 def fmtUser (u : Nat) (i : UserInfo) : String := s!"u{u}:{i.slots}/{i.start}/{i.expiry}"
 
-def dump (s : Tower) : String :=
+def fmtStatusKind : CStatus → String
+  | .confirmedIn _ => "C"
+  | .inMempoolSince _ => "M"
+  | .irrevocablyResolved => "I"
+  | .rejected c => s!"R:{c}"
+
+/-- `heights = false`: trackers are printed without the height of their status (used where the order of
+several status writes inside one block depends on a hash map's iteration order) -/
+def dumpWith (heights : Bool) (s : Tower) : String :=
   let us := sortDedup s.db.userKeys
   let memU := us.filterMap fun u => (s.mem.users u).map fun i => s!"u{u}:{i.slots}/{i.expiry}"
   let dbU := us.filterMap fun u => (s.db.users u).map (fmtUser u)
@@ -106,8 +114,10 @@ def dump (s : Tower) : String :=
   let ap := ks.filterMap fun k => (s.db.appts k).map fun a =>
     s!"l{k.1}/u{k.2}:{fmtBlob a.blob}:{a.tsd}:{a.usig}:{a.start}"
   let tr := ks.filterMap fun k => (s.db.trackers k).map fun t =>
-    s!"l{k.1}/u{k.2}:t{t.dispute}:t{t.penalty}:{fmtStatus t.status}"
+    s!"l{k.1}/u{k.2}:t{t.dispute}:t{t.penalty}:{if heights then fmtStatus t.status else fmtStatusKind t.status}"
   s!"users=[{joinWith " " memU}] dbusers=[{joinWith " " dbU}] appts=[{joinWith " " ap}] trackers=[{joinWith " " tr}]"
+
+def dump (s : Tower) : String := dumpWith true s
 
 def fmtAdminItem : AdminItem → String
   | .appt l b t => s!"a:l{l}:{fmtBlob b}:{t}"
@@ -207,6 +217,7 @@ def twStep (st : TwState) (ws : List String) : TwState × String :=
   | ["dump"] => (st, if was.isSome then "dead" else dump st.s)
   | ["admin"] => (st, if was.isSome then "dead" else admin st.s)
   | ["dbdump"] => (st, dump { st.s with mem := { st.s.mem with users := st.s.db.users } })
+  | ["dbdump", "noheights"] => (st, dumpWith false { st.s with mem := { st.s.mem with users := st.s.db.users } })
   | _ => (st, "bad-op")
 
 end Teos.Drv
